@@ -191,7 +191,12 @@ def main(argv=None):
     print(f"[{prop}] tier={tier} seed={args.seed} cases={len(cases)} jobs={args.jobs} repo={REPO}", flush=True)
 
     env = getattr(mod, "WORKER_ENV", None)
-    results = run_pool(prop, cases, args.jobs, deadline, env=env)
+    # once this many cases have reported violations the verdict cannot change any more: stop feeding
+    # (keeps runs against badly broken trees short; never triggers on a tree where the property holds)
+    stop_after = int(os.environ.get("VERIF_STOP_AFTER", "60"))
+    results = run_pool(prop, cases, args.jobs, deadline, env=env, stop_after_viol=stop_after)
+    if len(results) < len(cases):
+        print(f"[{prop}] stopped early after {len(results)}/{len(cases)} cases: {stop_after} cases with violations")
 
     # ---------------------------------------------------------------- aggregate
     cnt: dict = {}
